@@ -26,6 +26,9 @@ RULE = (
     "(utf-8 bytes <-> str for the unicode family, Get.memo_id). Non-trivial = value at a boundary, "
     "numeric-looking text/bytes, non-ASCII or escaped text, or a nested container; distinct = "
     "distinct (route, value) / (class, argument)."
+    ' Also: unpaired surrogates, subclass instances of the constant types (str/int enums,'
+    ' subclasses overriding __str__/__repr__), GLOBAL names with white space, and every'
+    ' constructed opcode re-encoded after the Pickled holding it has been interpreted.'
 )
 ASSUMPTIONS = [
     "open known finding KF-C15-1 (String, ShortBinString, BinString, Long1, Long4 encoders) is "
